@@ -14,6 +14,9 @@ func Pick(r *rand.Rand, xs ...string) string { return xs[r.Intn(len(xs))] }
 
 // Num draws a component biased to collisions.
 func Num(r *rand.Rand) string {
+	if r.Intn(40) == 0 { // the same numbers spelled with leading zeros
+		return Pick(r, "00", "01", "000", "010", "02")
+	}
 	switch r.Intn(7) {
 	case 0:
 		return "0"
@@ -228,7 +231,7 @@ func Gem(r *rand.Rand) string {
 	if r.Intn(2) == 0 {
 		k := 1 + r.Intn(4)
 		for i := 0; i < k; i++ {
-			s += "." + Pick(r, "a", "b", "rc", "pre", "beta", "0", "1", "2", "rc1", "a1", "1a", "A", "x10", "10")
+			s += "." + Pick(r, "a", "b", "rc", "pre", "beta", "0", "1", "2", "rc1", "a1", "1a", "A", "x10", "10", "00", "01", "0", "a0", "a00")
 		}
 	}
 	if r.Intn(6) == 0 {
